@@ -665,8 +665,10 @@ fn entry_of(value: u32) -> TranspositionEntry {
             _ => EvaluationKind::LowerBound,
         },
         performed_move: Move::by_moving(PieceIndex::new(color, piece), origin, dest),
+        // the value is recovered from `depth`; kind and remaining depth (max_depth - depth, 1..=7) vary with it, so
+        // that successive stores under one key differ in everything a replacement policy could look at
         depth: v,
-        max_depth: v + 1,
+        max_depth: v + 1 + (v / 3) % 7,
         evaluation: eval::Evaluation::from(value as i32),
     }
 }
